@@ -1,5 +1,6 @@
 import Driver.Proto
 import ZipVerif.Model.Reader
+import ZipVerif.Model.Writer
 /- Ops `z64.*`: record-level ZIP64 round trips with arbitrary 64-bit field values (C08). -/
 
 namespace Driver
@@ -53,6 +54,24 @@ def opZ64 (op : String) (a : Args) : Option String := do
       | (.panic _, _) => "panic"
     some s!"bytes={toHex bytes} end={p1} loc={p2}"
   | "z64.big" | "z64.cguard" | "z64.pos" => some "oracle-only"
+  | "z64.rawcopy" =>
+    -- the local header `raw_copy_file(_rename)` writes for a source entry `src.bin` (made by Unix, mode 0o100644,
+    -- 1980-01-01 00:00, declared CRC `crc`) with the given sizes: `Model.rawCopy` on a fresh writer
+    -- over an empty sink, run with an EMPTY raw stream - the 4 GiB of data are not materialised; whether the copy
+    -- loop and finish() cope with them is the oracle's part
+    let cs ← a.nat? "cs"; let us ← a.nat? "us"; let m ← a.nat? "m"
+    let nm ← (match a.get? "name" with
+      | some "same" => some "src.bin".toUTF8.toList
+      | some h => parseHex h
+      | none => none)
+    let crc ← a.nat? "crc"
+    let src := { mkFile us cs 0 [] "src.bin".toUTF8.toList m false with crc32 := UInt32.ofNat crc }
+    let ext : WExt := { compress := fun _ _ _ => [], zcEncrypt := fun _ _ => [] }
+    match (rawCopy ext src [] nm WState.init) none (Dev.ofBytes []) with
+    | (.ok (.ok _, _), d) => some s!"hdr={toHex d.buf}"
+    | (.ok (.error e, _), _) => some ((Out.className e).replace " " ":")
+    | (.err e, _) => some ((Out.className e).replace " " ":")
+    | (.panic _, _) => some "panic"
   | _ => none
 
 end Driver
